@@ -1441,6 +1441,24 @@ impl Reader {
   }
 }
 
+// Verification hook: read-only views of a writer proxy and of the fragment assemblers.
+#[cfg(rustdds_verif)]
+impl Reader {
+  pub(crate) fn verif_writer_proxy_digest(&self, writer: GUID) -> Option<(i64, Vec<i64>, i32)> {
+    self
+      .matched_writers
+      .get(&writer)
+      .map(RtpsWriterProxy::verif_digest)
+  }
+  pub(crate) fn verif_assemblers_digest(&self) -> Vec<(GUID, Vec<(i64, usize, Vec<bool>)>)> {
+    self
+      .fragment_assemblers
+      .iter()
+      .map(|(g, fa)| (*g, fa.verif_digest()))
+      .collect()
+  }
+}
+
 impl HasQoSPolicy for Reader {
   fn qos(&self) -> QosPolicies {
     self.qos_policy.clone()
